@@ -34,12 +34,17 @@ RULE = ("exhaustive: every non-empty directed graph (self-loops, antiparallel ed
         "sides. non-trivial = >= 2 edges and a non-integer weight")
 EXHAUSTIVE = {"quick": "all 527 non-empty digraphs on {1}, {1,2}, {1,2,3} (one weight palette)",
               "thorough": "all non-empty digraphs on {1}, {1,2}, {1,2,3} x 3 weight palettes x 2 insertion orders"}
+THEOREMS_FOR_OP = {"c09.roundtrip": "C09_roundtrip, C09_idempotent, C09_header_only (Properties/C09.v); on the extracted "
+                                    "instantiation: C09_roundtrip_tokens, C09_idempotent_tokens",
+                   "c09.parse": "none (parser-fidelity record, see RULE)"}
 TRUSTED = ["C09 theorems are stated for an abstract weight type W with Section hypotheses on the codec show_w = "
            "'{}'.format(float) (= repr), read_w = float(token): H_read_show: read_w (show_w w) = Some w; H_show_nonempty; "
            "H_show_no_comma; H_show_no_space: no whitespace character at all (Python's 29 str.isspace code points, which "
            "include U+0020 and every line boundary).  CPython's repr/float round trip for finite doubles and the character "
            "set of repr are NOT proved; check (f) tests them on every generated weight (float(repr(w)) bit-identical, "
-           "charset of the token)",
+           "charset of the token).  C09_roundtrip_pointwise needs the four facts only for the weights stored in the "
+           "instance (good_w); C09_roundtrip_tokens / C09_idempotent_tokens are the statements about the extracted functions "
+           "(weight = raw token, tok_ok = non-empty, no comma, no whitespace)",
            "the UTF-8 codec round trip of open(..., encoding='utf-8') and universal-newline reading (modelled by "
            "Lib/PyStr.readlines) are exercised, not proved",
            "modelled: WeightedDiGraph (add_node, add_edge, edges, nodes, outgoing_edges), MatchingInstance.parse/.write, "
